@@ -1177,10 +1177,11 @@ func (c *Client) getSupportedVersion(ctx context.Context) (*GetSupportedVersionR
 			return nil, err
 		}
 
-		sv.LLRPStatus = errMsg.LLRPStatus
-
-		if sv.LLRPStatus.Status == StatusMsgVerUnsupported {
-			sv.LLRPStatus = LLRPStatus{Status: StatusSuccess}
+		// Any other ErrorMessage is an error reply, whatever status it carries
+		// (LLRPStatus.Err is nil for Success): the reader did not answer the query.
+		if errMsg.LLRPStatus.Status != StatusMsgVerUnsupported {
+			se := StatusError(errMsg.LLRPStatus)
+			return nil, fmt.Errorf("%v returned an error: %w", resp, &se)
 		}
 
 	case MsgGetSupportedVersionResponse:
